@@ -287,6 +287,7 @@ func (w *Wallet) disconnectBlock(dbtx walletdb.ReadWriteTx, b wtxmgr.BlockMeta) 
 				return err
 			}
 			b.Hash = *hash
+			bs.Hash = *hash
 
 			client := w.ChainClient()
 			header, err := client.GetBlockHeader(hash)
